@@ -277,6 +277,45 @@ pub fn c01_app() -> String {
     format!("{}|{}", host, default)
 }
 
+thread_local! {
+    /// connection cases to repeat against the tokio runtime (see `tokio_conn_cases`)
+    pub static TOKIO_INPUTS: std::cell::RefCell<Vec<Vec<String>>> = std::cell::RefCell::new(Vec::new());
+    pub static TOKIO_EVERY: std::cell::Cell<u64> = std::cell::Cell::new(0);
+    static TOKIO_COUNTER: std::cell::Cell<u64> = std::cell::Cell::new(0);
+}
+
+fn tokio_exe() -> Option<std::path::PathBuf> {
+    let me = std::env::current_exe().ok()?;
+    let verif = me.parent()?.parent()?.parent()?.parent()?;
+    let p = verif.join("harness-tokio").join("target").join("release").join("hvt");
+    if p.exists() { Some(p) } else { None }
+}
+
+/// `conn_tokio` cases: the selected connections against the real tokio `App::run` on a loopback port.
+pub fn tokio_conn_cases(out: &mut Out) {
+    let inputs: Vec<Vec<String>> = TOKIO_INPUTS.with(|t| t.borrow_mut().drain(..).collect());
+    if inputs.is_empty() { return; }
+    let exe = match tokio_exe() {
+        Some(e) => e,
+        None => { out.extra.insert("tokio".into(), "hvt not built: tokio runtime not exercised".into()); return; }
+    };
+    let dir = std::env::temp_dir().join(format!("hv_c01_{}", std::process::id()));
+    let _ = std::fs::create_dir_all(&dir);
+    let (inp, outp) = (dir.join("in"), dir.join("out"));
+    std::fs::write(&inp, inputs.iter().map(|f| f.join("\t")).collect::<Vec<_>>().join("\n") + "\n").unwrap();
+    let ok = std::process::Command::new(exe).arg("__c01").arg(&inp).arg(&outp).status().map(|s| s.success()).unwrap_or(false);
+    let res = std::fs::read_to_string(&outp).unwrap_or_default();
+    let _ = std::fs::remove_dir_all(&dir);
+    if !ok { out.extra.insert("tokio".into(), "hvt __c01 failed".into()); return; }
+    for (f, r) in inputs.iter().zip(res.lines()) {
+        let mut g = f.clone();
+        g[0] = "conn_tokio".into();
+        out.count("tokio:connections");
+        let fr: Vec<&str> = g.iter().map(|s| s.as_str()).collect();
+        out.case(&fr, r, true);
+    }
+}
+
 pub fn emit_conn(out: &mut Out, cfg: &str, timeout: bool, events: &[String], peer: (&str, u16), all_bytes: &[u8], tag: &str, nontrivial: bool) {
     let f = vec![
         "conn".to_string(),
@@ -286,6 +325,12 @@ pub fn emit_conn(out: &mut Out, cfg: &str, timeout: bool, events: &[String], pee
         format!("{}|{}", peer.0, peer.1),
         ip_oracle(all_bytes),
     ];
+    // a share of the plain connections (no timeout, no idle gap, no upgrade) is repeated on the tokio runtime
+    let every = TOKIO_EVERY.with(|e| e.get());
+    if every > 0 && !timeout && tag != "idle" && tag != "ws" && tag != "split" && tag != "bytewise" {
+        let n = TOKIO_COUNTER.with(|c| { c.set(c.get() + 1); c.get() });
+        if n % every == 0 { TOKIO_INPUTS.with(|t| t.borrow_mut().push(f.clone())); }
+    }
     let r = exec(&f).unwrap_or_else(|| "UNSUPPORTED".into());
     let nresp = r.split("] D[").next().map(|w| if w == "W[" { 0 } else { w.matches(';').count() + 1 }).unwrap_or(0);
     out.count(&format!("{}:responses={}", tag, nresp.min(7)));
@@ -333,6 +378,7 @@ fn c01_request(rng: &mut Rng) -> (Vec<u8>, bool, bool) {
 }
 
 pub fn gen(out: &mut Out, thorough: bool, seed: u64) {
+    TOKIO_EVERY.with(|e| e.set(if thorough { 4 } else { 8 }));
     let mut rng = Rng::new(seed ^ 0xC01);
     let cfg = c01_app();
     let n = if thorough { 60_000 } else { 3_000 };
@@ -388,4 +434,5 @@ pub fn gen(out: &mut Out, thorough: bool, seed: u64) {
         let b = format!("GET {} HTTP/1.1\r\n{}Upgrade: websocket\r\nConnection: Upgrade\r\n\r\n", t, host).into_bytes();
         emit_conn(out, &cfg, false, &[format!("d{}", hex(&b))], ("127.0.0.1", 40000), &b, "ws", true);
     }
+    tokio_conn_cases(out);
 }
